@@ -16,7 +16,10 @@ Decided (structural clauses):
   R07.5 HTTP/2 send buffering (BufferedH2Connection): the class is interpreted from its AST (pyint; hyper-h2's send_data /
         local_flow_control_window replaced by a recording stub with a window) over all short schedules of
         send_data / end_stream / WINDOW_UPDATE: the bytes handed to h2 are exactly the submitted bytes, in order, END_STREAM only
-        on the last frame and only after all data.  Bounded: <= 4 operations, chunk sizes {1,3,5}, window increments {1,2,4,64}.
+        on the last frame and only after all data.  Bounded: <= 3 (quick) / 4 (thorough) operations, chunk sizes {1,3,5},
+        END_STREAM carried by the last chunk of {0,3,5} bytes (the HTTP/2 error page - "the client receives an error" - is sent as
+        send_data(page, end_stream=True)), frame size 4, window increments {1,2,4,64}.  Weakest kind of rule here (DESIGN 10.2).
+        Found F-C07 (END_STREAM dropped when the data is split into several frames), repaired in /repo.
 Not decided: byte-level equality of relayed bodies at run time, memory use of the libraries below.
 """
 
@@ -48,7 +51,8 @@ REG = {
     "strength": "partial",
     "technique": "decision table by abstract interpretation of check_body_size + path rules (must-follow, control dependence) on the body states",
     "claim": "check_body_size's abort/stream/nothing decision equals the reference table on all 160 abstract cells incl. the boundary (strictness) "
-    "and the abort trace shape; every buffer append is followed by the check; streamed chunks are relayed once, in order, stored only on option.",
+    "and the abort trace shape; every buffer append is followed by the check; streamed chunks are relayed once, in order, stored only on option; "
+    "the HTTP/2 send buffer hands over submitted bytes once, in order, END_STREAM last (bounded schedules).",
     "note": "Abstract domain relates expected size to each threshold by {unset,<,=,>}; comparisons of a shape the interpreter does not model are an ANALYSIS-ERROR.",
 }
 
@@ -202,7 +206,7 @@ def r07_5(ctx):
     from ..pyint import Raised
     from ..pyint import Rec
 
-    ctx.func(H2B, "BufferedH2Connection.send_data")
+    snd = ctx.func(H2B, "BufferedH2Connection.send_data")
     swu = ctx.func(H2B, "BufferedH2Connection.stream_window_updated")
     ctx.func(H2B, "BufferedH2Connection.end_stream")
     h2stub = types.SimpleNamespace(
@@ -210,7 +214,9 @@ def r07_5(ctx):
         events=types.SimpleNamespace(), settings=types.SimpleNamespace(), config=types.SimpleNamespace(DummyLogger=object), connection=types.SimpleNamespace(H2Connection=object), exceptions=types.SimpleNamespace(),
     )
     ops_send = [("send", n) for n in (1, 3, 5)]
-    ops = ops_send + [("window", w) for w in (1, 2, 4, 64)] + [("end", 0), ("end", 5)]  # ("end", n>0): last data chunk carries END_STREAM itself
+    # ("end", n>0): the last data chunk carries END_STREAM itself (the HTTP/2 error page is sent that way); 3 fits into one frame and can be
+    # sent partially from the buffer, 5 is split into two frames on submission
+    ops = ops_send + [("window", w) for w in (1, 2, 4, 64)] + [("end", 0), ("end", 3), ("end", 5)]
     limit = 4 if ctx.tier == "thorough" else 3
     n = 0
     bad = {}
@@ -226,6 +232,8 @@ def r07_5(ctx):
                 def h2_send_data(stream_id, data=b"", end_stream=False, pad_length=None, _w=world):
                     if len(data) > _w["window"]:
                         raise RuntimeError("FlowControlError")  # hyper-h2 raises when the window is exceeded
+                    if any(e for _, e in _w["sent"]):
+                        raise RuntimeError("StreamClosedError")  # ... and when the stream was already ended by us
                     _w["window"] -= len(data)
                     _w["sent"].append((bytes(data), bool(end_stream)))
 
@@ -278,17 +286,19 @@ def r07_5(ctx):
                     bad.setdefault(problem.split(",")[0][:60], (seq, init_window, problem))
     ctx.cells += n
     for k, (seq, w0, problem) in sorted(bad.items()):
-        ctx.fail("R07.5", (H2B, "BufferedH2Connection", swu), f"schedule {list(seq)} (initial window {w0}): {problem[:120]}",
+        # a schedule without WINDOW_UPDATE never enters stream_window_updated before the final drain: point at send_data
+        ctx.fail("R07.5", (H2B, "BufferedH2Connection", swu if any(o[0] == "window" for o in seq) else snd), f"schedule {list(seq)} (initial window {w0}): {problem[:120]}",
                  "buffered HTTP/2 body data is not handed to the peer exactly once, in order, with END_STREAM last")
     if not bad:
         ctx.ok("R07.5", f"{n} schedules of send_data/end_stream/WINDOW_UPDATE relay the submitted bytes in order")
-    ctx.bounds.append(f"R07.5: schedules of at most {limit} operations, chunk sizes 1/3/5 (frame size 4), window increments 1/2/4/64")
+    ctx.bounds.append(f"R07.5: schedules of at most {limit} operations, chunk sizes 1/3/5, END_STREAM with 0/3/5 bytes (frame size 4), window increments 1/2/4/64, initial window 0/2")
+    ctx.trust("hyper-h2 (R07.5 stub): H2Connection.send_data raises when the data exceeds the stream window or the stream was already ended; local_flow_control_window returns the remaining window")
 
 
 def check(ctx):
     ctx.rule("R07.5", "BufferedH2Connection relays buffered body bytes exactly once, in order, END_STREAM last (interpreted over short schedules)")
     ctx.guard(r07_5, ctx)
-    ctx.exhaustive = True
+    # not `exhaustive`: R07.1 enumerates its abstract domain completely, but R07.5 is a bounded enumeration (see bounds)
     ctx.bounds.append("loops unrolled once in path enumeration; the check_body_size table enumerates its abstract domain completely")
     ctx.rule("R07.1", "check_body_size decision table equals the reference (abort before stream, strict comparisons, abort trace shape)")
     ctx.rule("R07.2", "every body-buffer append is immediately followed by check_body_size; early check precedes the headers hook")
@@ -491,6 +501,8 @@ I = REL
 MUTANTS = [
     Mutant("h2-remainder-requeued-at-the-back", H2B, "                self.stream_buffers[stream_id].appendleft(", "                self.stream_buffers[stream_id].append(", "R07.5"),
     Mutant("h2-partial-chunk-keeps-end-stream", H2B, "                    data=chunk.data[:available_window],\n                    end_stream=False,", "                    data=chunk.data[:available_window],\n                    end_stream=chunk.end_stream,", "R07.5"),
+    Mutant("h2-split-drops-end-stream", H2B, "                self.send_data(stream_id, chunk, end_stream=end_stream and is_last)", "                self.send_data(stream_id, chunk, end_stream=False)", "R07.5"),  # F-C07 returning
+    Mutant("h2-split-ends-on-every-slice", H2B, "                self.send_data(stream_id, chunk, end_stream=end_stream and is_last)", "                self.send_data(stream_id, chunk, end_stream=end_stream)", "R07.5"),
     Mutant("h2-send-bypasses-buffer", H2B, "        if self.stream_buffers.get(stream_id, None):\n            # We already have some data buffered, let's append.", "        if False:\n            # We already have some data buffered, let's append.", "R07.5"),
     Mutant("limit-not-strict", I, "if max_total_size is not None and expected_size > max_total_size:", "if max_total_size is not None and expected_size >= max_total_size:", "R07.1"),
     Mutant("threshold-not-strict", I, "if max_stream_size is not None and expected_size > max_stream_size:", "if max_stream_size is not None and expected_size >= max_stream_size:", "R07.1"),
